@@ -400,6 +400,53 @@ message V {
 		}
 	})
 
+	// --- call sequences on one codec: a type that cannot be reflected, then the types it is tangled up with ---------
+	r.Do("sequence/after-failed-build", func(c *rt.C) {
+		src := map[string]string{"verif/seq/v1/seq.proto": `syntax = "proto3";
+package verif.seq.v1;
+import "google/protobuf/empty.proto";
+message Outer { Inner inner = 1; google.protobuf.Empty bad = 2; }
+message Inner { Outer outer = 1; string s = 2; repeated Inner more = 3; }
+message Side { Inner inner = 1; Third third = 2; }
+message Third { Side side = 1; map<int32, string> bad = 2; Inner inner = 3; }
+message Fine { string s = 1; Fine next = 2; }
+message UsesAll { Fine fine = 1; Inner inner = 2; Side side = 3; }
+`}
+		ct, err := compileProtoText(src)
+		if err != nil {
+			panic("harness: sequence proto does not compile: " + err.Error())
+		}
+		docs := map[string][]string{
+			"verif.seq.v1.Outer":   {"{}", `{"inner":{"s":"x"}}`, `{"inner":{"outer":{}}}`},
+			"verif.seq.v1.Inner":   {"{}", `{"outer":{}}`, `{"outer":{"inner":{"s":"x"}}}`, `{"s":"x","more":[{"outer":{}}]}`},
+			"verif.seq.v1.Side":    {"{}", `{"inner":{"outer":{}}}`, `{"third":{"side":{}}}`},
+			"verif.seq.v1.Third":   {"{}", `{"side":{"inner":{}}}`, `{"inner":{"outer":{}}}`},
+			"verif.seq.v1.Fine":    {"{}", `{"s":"x","next":{"s":"y"}}`},
+			"verif.seq.v1.UsesAll": {"{}", `{"fine":{"s":"x"},"inner":{"outer":{}},"side":{"third":{}}}`},
+		}
+		types := rt.SortedKeys(docs)
+		rng := c.Rand()
+		for trial := 0; trial < 40; trial++ {
+			// a fresh codec per trial, the types in a different order each time
+			env := &codecEnv{name: "sequence", ct: ct, codec: j5codec.NewCodec(j5codec.WithResolver(ct.Types), j5codec.WithProtoToAny())}
+			order := append([]string{}, types...)
+			rng.Shuffle(len(order), func(i, j int) { order[i], order[j] = order[j], order[i] })
+			for _, full := range append(order, order...) {
+				md := ct.message(full)
+				for _, doc := range docs[full] {
+					c06Decode(c, env, md, []byte(doc), "sequence-after-failed-build")
+				}
+				c06Query(c, env, md, url.Values{"s": {"x"}}, "sequence-after-failed-build-query")
+				// and the encoder
+				m := dynamicpb.NewMessage(md)
+				ok, pv, fn, st := rt.Guard(func() { _, err = env.codec.ProtoToJSON(m) })
+				if !ok {
+					c.Violate("encode-panic/"+fn, fmt.Sprintf("ProtoToJSON panicked on an empty %s after other types were used on the codec: %v", full, pv), map[string]any{"type": full, "order": order, "stack": st})
+				}
+			}
+		}
+	})
+
 	// --- shape-free hostile inputs for every type ------------------------------------------------------
 	r.Do("sink/hostile", func(c *rt.C) {
 		env := sinkEnv()
